@@ -7,7 +7,8 @@ Open Scope Z_scope.
 
 (* A case is one of three kinds (C19Model.C19_case).
 
-   CaseCtrl: twin worlds A and B go through the same history of World
+   CaseCtrl: twin sides A and B, each with two independent Worlds sharing the
+   side's controller instances, go through the same history of World
    calls; every shorthand (the six Controller methods / module functions,
    reading, assigning and deleting a ComponentReference or a
    ProcessorReference, desper.controller()) is issued through a controller k
